@@ -13,9 +13,9 @@ from ..core.framework import Ctx
 
 SPEC = {
     "modules": ["HC.Props.C12"],
-    "extracted": ["Guards", "Consts", "WsGuards"],
+    "extracted": ["Guards", "Consts", "WsGuards", "AppExit"],
     "technique": "Lean 4 theorems over Except-valued transducer models of HTTPStream.app_send / WSStream.app_send (reject = no-op, one final head, end once, no CTL bytes — for arbitrary message sequences, by budget/potential induction) + differential execution of model and real stream objects on every short sequence of the ASGI send alphabet",
-    "level_text": "Proved in Lean for ARBITRARY message sequences (any length, any payloads): a message in a state the reference automaton forbids is rejected with the state and the wire untouched; an invalid payload (non-bytes or pseudo header names/values, CR/LF/NUL, non-str push path or text frame) is rejected before anything is emitted; at most one final response head and one end-of-body per request; nothing follows the end of the response; no CR, LF or NUL of an application header reaches the protocol layer.  The model is tied to the code by running every sequence up to length 3 (thorough: 4, sampled 5) over the alphabet x payload variants on the real HTTPStream and WSStream objects, step by step (events, exception class, state); the WebSocket sequences are run against every kind of handshake (subprotocols offered, one offered, an empty Sec-WebSocket-Protocol header, no such header) and the guard that decides which subprotocol of websocket.accept is refused is regenerated from the source (HC/Extracted/WsGuards.lean) and proved to be the model's.",
+    "level_text": "Proved in Lean for ARBITRARY message sequences (any length, any payloads): a message in a state the reference automaton forbids is rejected with the state and the wire untouched; an invalid payload (non-bytes or pseudo header names/values, CR/LF/NUL, non-str push path or text frame) is rejected before anything is emitted; at most one final response head, at most one response start of ANY status (an accepted http.response.start with an interim status 1xx moves the request to RESPONSE exactly like a final one, so a second start raises - for the model, and for the statement order of the start branch read off the source, in which a conditional state assignment is not a recognised shape) and one end-of-body per request; nothing follows the end of the response; no CR, LF or NUL of an application header reaches the protocol layer.  The HTTP reference automaton keeps its own state (it does not follow the implementation's): any accepted start is the response start.  The model is tied to the code by running every sequence up to length 3 (thorough: 4, sampled 5) over the alphabet x payload variants on the real HTTPStream and WSStream objects, step by step (events, exception class, state); the WebSocket sequences are run against every kind of handshake (subprotocols offered, one offered, an empty Sec-WebSocket-Protocol header, no such header) and the guard that decides which subprotocol of websocket.accept is refused is regenerated from the source (HC/Extracted/WsGuards.lean) and proved to be the model's.",
     "level_note": "Trusted: Lean kernel; hand-written models HC/Stream/{Http,Ws}.lean tied by differential testing; extracted suppress_body / version sets; wsproto's LocalProtocolError conditions (connection-state machine) modelled and sampled; h11's own header validation is library behaviour.  'Raises' means any exception out of send().  http.response.trailers before the response start is treated as unspecified by the monitor (the code accepts it on HTTP/2; see DESIGN.md).",
     "rule": "exhaustive enumeration of sequences over the per-protocol alphabet (message type x payload variant) - WebSocket: x handshake kind (what the client offered as subprotocols) -, quick: all of length <= 2 and a sample of length 3; thorough: all <= 3 and samples of 4-5; distinct = distinct sequences of (type, payload-class); non-trivial = contains at least one message that the reference automaton rejects",
     "trusted": ["wsproto Connection.send state conditions (OPEN / *_CLOSING) as modelled in HC.Stream.Ws.connSend"],
@@ -96,6 +96,10 @@ def ws_alphabet() -> List[Tuple[str, dict]]:
         ("send:text_int", {"type": "websocket.send", "bytes": None, "text": 5}),
         ("close", {"type": "websocket.close"}),
         ("close:code", {"type": "websocket.close", "code": 3000}),
+        # payloads no close frame can be built from (int() / wsproto's serialisation refuse them while CONNECTED; F63)
+        ("close:code_str", {"type": "websocket.close", "code": "abc"}),
+        ("close:code_big", {"type": "websocket.close", "code": 70000}),
+        ("close:reason_int", {"type": "websocket.close", "code": 1000, "reason": 5}),
         ("rstart:ok", {"type": "websocket.http.response.start", "status": 401, "headers": OKH}),
         ("rstart:crlf", {"type": "websocket.http.response.start", "status": 401, "headers": BAD_HEADERS["crlf_value"]}),
         ("rstart:str", {"type": "websocket.http.response.start", "status": 401, "headers": BAD_HEADERS["str_value"]}),
@@ -205,7 +209,13 @@ class WsRef:
             sp_ok = sp is None or (isinstance(sp, str) and self.offered is not None and sp in self.offered and not any(ord(c) in CTL for c in sp))
             return sp_ok and headers_ok(hs) and not any(bytes(n).strip() == b"sec-websocket-protocol" for n, _ in hs)
         if t == "websocket.close":
-            return self.st in ("HANDSHAKE", "CONNECTED")
+            if self.st not in ("HANDSHAKE", "CONNECTED"):
+                return False
+            code, reason = m.get("code", 1000), m.get("reason")
+            well_formed = isinstance(code, int) and 0 <= code <= 65535 and (reason is None or isinstance(reason, str))
+            # a code / reason outside the ASGI types: unspecified here (the code is not even looked at when the close
+            # answers the handshake with 403); whatever the server decides, a refusal must be a no-op (`reject_not_noop`)
+            return True if well_formed else None
         if t == "websocket.send":
             if self.st != "CONNECTED":
                 return False
